@@ -91,7 +91,11 @@ def gen(ctx, rnd, quick):
     SEQS = (0xffffffff, 0xfffffffe, 0, 10, 0x400005, 0x80000005)
     for (name, scr, ver, lock) in (("cltv", R.pushnum(500) + bytes([0xb1]), 1, 600), ("cltv-unmet", R.pushnum(700) + bytes([0xb1]), 1, 600),
                                    ("cltv-time", R.pushnum(500000001) + bytes([0xb1]), 2, 500000002), ("csv", R.pushnum(5) + bytes([0xb2]), 2, 0),
-                                   ("csv-v1", R.pushnum(5) + bytes([0xb2]), 1, 0), ("csv-time", R.pushnum(0x400003) + bytes([0xb2]), 2, 0)):
+                                   ("csv-v1", R.pushnum(5) + bytes([0xb2]), 1, 0), ("csv-time", R.pushnum(0x400003) + bytes([0xb2]), 2, 0),
+                                   # the version is an unsigned 32-bit number for BIP68/112: top bit set means "at least 2"
+                                   ("csv-vffffffff", R.pushnum(5) + bytes([0xb2]), -1, 0), ("csv-v80000002", R.pushnum(5) + bytes([0xb2]), -2147483646, 0),
+                                   ("csv-v7fffffff", R.pushnum(5) + bytes([0xb2]), 0x7fffffff, 0), ("csv-v0", R.pushnum(5) + bytes([0xb2]), 0, 0),
+                                   ("cltv-vffffffff", R.pushnum(500) + bytes([0xb1]), -1, 600)):
         for a in SEQS:
             for b in (SEQS if not quick else SEQS[:3]):
                 for idx in (0, 1):
